@@ -368,7 +368,7 @@ theorem estmt_slot (env : Env) (n : Nat) (ih : EStmt env n) :
     obtain ⟨_, rfl⟩ := err_inj h
     exact Frame.refl hw
   · rw [he] at h; cases h
-  · rcases hcase with ⟨_, _, he⟩ | ⟨f, hf, _, he⟩
+  · rcases hcase with ⟨_, _, he⟩ | ⟨f, hf, _, _, he⟩
     · rw [he] at h
       exact ih.nodes body c3 w e w' hb hc3 hw h
     · rw [he] at h
